@@ -332,8 +332,8 @@ func deserRun(prog []dop, src []byte, variant int, measure bool) deserGot {
 	var err error
 	iters := 0
 	cap := len(src) + 8
-	if cap < 1<<16 && hasZeroWidth(prog) {
-		cap = 1 << 16 // let a zero-width loop show that it follows the count, not the input
+	if hasZeroWidth(prog) {
+		cap = 1024 // let a zero-width loop show that it follows the count, not the input
 	}
 	o := guarded(measure, false, func() { vals, off, err = deserRead(prog, src, variant, &iters, cap) })
 	g.Alloc, g.Iters = o.alloc, iters
@@ -378,13 +378,15 @@ func parseDeserWant(v any) deserWant {
 	return w
 }
 
-func valsMatch(got []any, want []any) bool {
+func valsMatch(prog []dop, got []any, want []any) bool {
 	if len(got) != len(want) {
 		return false
 	}
 	for i := range want {
-		if canon(want[i]) == "[-1]" {
-			continue
+		if prog[i].Op == "Time" {
+			if w := ints(jsonRound(want[i])); len(w) == 8 && w[0] >= 128 {
+				continue // a timestamp beyond MaxInt64 ns has no demanded reading (DeserTrace!TimeWild)
+			}
 		}
 		if canon(got[i]) != canon(want[i]) {
 			return false
@@ -420,7 +422,7 @@ func deserJudge(prog []dop, g deserGot, w deserWant, inputLen int) (class, text 
 		return "rejects-valid-input", fmt.Sprintf("failed with %s; the model reads %s and consumes %d bytes", g.Err, canon(w.Vals), w.Off)
 	case !w.Ok && g.Ok:
 		return "accepts-invalid-input", fmt.Sprintf("returned %s (consumed %d); the model demands an error %v", canon(g.Vals), g.Off, w.Errs)
-	case w.Ok && !valsMatch(g.Vals, w.Vals):
+	case w.Ok && !valsMatch(prog, g.Vals, w.Vals):
 		return "wrong-value", fmt.Sprintf("returned %s, the model demands %s", canon(g.Vals), canon(w.Vals))
 	case w.Ok && g.Off != w.Off:
 		return "wrong-consumed", fmt.Sprintf("Done() reported %d consumed bytes, the model demands %d", g.Off, w.Off)
